@@ -55,7 +55,11 @@ func phases(args map[string]string) error {
 		return err
 	}
 	defer w.Close()
+	layout := args["layout"] // "" = every member leads the allocator of its own datacenter; "pair" = dc-3 is led by the member of dc-1
 	tso.PriorityCheck = 200 * time.Millisecond
+	if layout == "pair" {
+		tso.PriorityCheck = time.Hour // read when the servers start: the allocators stay with whoever won them
+	}
 	cfgs, err := pdserver.MultiConfigs(3)
 	if err != nil {
 		return err
@@ -141,25 +145,74 @@ func phases(args map[string]string) error {
 		return true
 	}
 	dl = time.Now().Add(60 * time.Second)
-	for !home() && time.Now().Before(dl) {
+	for layout == "" && !home() && time.Now().Before(dl) {
 		time.Sleep(100 * time.Millisecond)
 	}
 	time.Sleep(500 * time.Millisecond)
 	lp := leaderPD()
-	// one request target per datacenter (every member leads the allocator of its own datacenter)
-	dcOfPort := map[string]string{}
+	// model name -> real datacenter (the identity unless the layout is "pair")
+	name := map[string]string{"dc-1": "dc-1", "dc-2": "dc-2", "dc-3": "dc-3"}
+	if layout == "pair" {
+		// Without the priority check an allocator stays with the member that won it. Leaderships are given up and campaigned
+		// for again until exactly two members lead allocators; the member with two of them plays the model's {dc-1, dc-3}.
+		byMember := func() map[*pdserver.PD][]string {
+			m := map[*pdserver.PD][]string{}
+			for _, dc := range dcs {
+				if p := holder(dc); p != nil {
+					m[p] = append(m[p], dc)
+				}
+			}
+			return m
+		}
+		ok := false
+		for try := 0; try < 40 && !ok; try++ {
+			m := byMember()
+			n := 0
+			for _, g := range m {
+				n += len(g)
+			}
+			if n == 3 && len(m) == 2 {
+				ok = true
+				break
+			}
+			if n == 3 {
+				var big []string
+				var who *pdserver.PD
+				for p, g := range m {
+					if len(g) > len(big) {
+						big, who = g, p
+					}
+				}
+				who.S.GetTSOAllocatorManager().ResetAllocatorGroup(big[try%len(big)])
+			}
+			time.Sleep(1500 * time.Millisecond)
+		}
+		if !ok {
+			return fmt.Errorf("no layout with two members leading the three allocators was reached")
+		}
+		for _, g := range byMember() {
+			if len(g) == 2 {
+				name["dc-1"], name["dc-3"] = g[0], g[1]
+			} else {
+				name["dc-2"] = g[0]
+			}
+		}
+		time.Sleep(500 * time.Millisecond)
+	}
+	// one request target per member that leads allocators; the group of a member = the datacenters it leads
+	groupOfPort := map[string][]string{}
 	for _, dc := range dcs {
 		urls := holder(dc).S.GetMember().Member().GetClientUrls()
 		if len(urls) == 0 {
 			return fmt.Errorf("no client url for the allocator leader of %s", dc)
 		}
 		port := urls[0][strings.LastIndex(urls[0], ":")+1:]
-		if _, dup := dcOfPort[port]; dup {
-			return fmt.Errorf("two datacenters are led by one member")
-		}
-		dcOfPort[port] = dc
+		groupOfPort[port] = append(groupOfPort[port], dc)
 	}
-	dcOf := func(target string) string { return dcOfPort[target[strings.LastIndex(target, ":")+1:]] }
+	if (layout == "" && len(groupOfPort) != 3) || (layout == "pair" && len(groupOfPort) != 2) {
+		return fmt.Errorf("allocator leaders are not laid out as requested: %v", groupOfPort)
+	}
+	dcOf := func(target string) string { return strings.Join(groupOfPort[target[strings.LastIndex(target, ":")+1:]], "+") }
 	alloc := func(dc string) (tso.Allocator, error) {
 		p := lp
 		if dc != tso.GlobalDCLocation {
@@ -242,7 +295,7 @@ func phases(args map[string]string) error {
 		var roundMax [2]int64
 		// collect waits until every request of the next round is parked, or the global request has returned
 		collect := func() error {
-			for len(parks) < len(dcs) {
+			for len(parks) < len(groupOfPort) {
 				select {
 				case p := <-sendCh:
 					parks[dcOf(p.target)] = p
@@ -267,7 +320,7 @@ func phases(args map[string]string) error {
 			for _, p := range parks {
 				skip = p.skip
 				if p.max != roundMax || p.skip != skip {
-					return fmt.Errorf("requests of one round differ")
+					return fmt.Errorf("requests of one round differ: %v", parks)
 				}
 			}
 			w.Emit(trace.Ev{"ev": "round", "skip": skip, "max": rel(roundMax)})
@@ -284,7 +337,7 @@ func phases(args map[string]string) error {
 			close(p.rel)
 			select {
 			case r := <-recvCh:
-				e := trace.Ev{"ev": "deliver", "dc": dc, "lost": lost, "rpcerr": r.err != nil, "reply": []int{-1, -1}}
+				e := trace.Ev{"ev": "deliver", "dc": dc, "dcs": strings.Split(dc, "+"), "lost": lost, "rpcerr": r.err != nil, "reply": []int{-1, -1}}
 				if r.err == nil && r.resp.GetMaxLocalTs() != nil {
 					e["reply"] = rel([2]int64{r.resp.GetMaxLocalTs().GetPhysical(), r.resp.GetMaxLocalTs().GetLogical()})
 				}
@@ -307,7 +360,7 @@ func phases(args map[string]string) error {
 			}
 			switch last[0].(string) {
 			case "LocalGen":
-				dc, n := last[1].(string), int(last[2].(float64))
+				dc, n := name[last[1].(string)], int(last[2].(float64))
 				e := trace.Ev{"ev": "local", "dc": dc, "n": n, "err": true, "ts": []int{0, 0}, "suffix": 0}
 				if p := holder(dc); p != nil {
 					ts, err := p.S.GetTSOAllocatorManager().HandleTSORequest(dc, uint32(n))
@@ -318,7 +371,7 @@ func phases(args map[string]string) error {
 				}
 				w.Emit(e)
 			case "Push":
-				dc, kind := last[1].(string), last[2].(string)
+				dc, kind := name[last[1].(string)], last[2].(string)
 				if kind != "tick" && gdone == nil {
 					continue
 				}
@@ -373,7 +426,14 @@ func phases(args map[string]string) error {
 					return err
 				}
 			case "Deliver":
-				dc, lost := last[1].(string), last[2].(bool)
+				var names []string
+				set, _ := last[1].(map[string]interface{}) // a TLA+ set arrives as {"__set__": [...]}
+				members, _ := set["__set__"].([]interface{})
+				for _, x := range members {
+					names = append(names, name[x.(string)])
+				}
+				sort.Strings(names)
+				dc, lost := strings.Join(names, "+"), last[2].(bool)
 				if gdone == nil || parks[dc] == nil {
 					continue // the real request is in another round than the model's (the estimate differs): the monitor judges what happens
 				}
